@@ -314,6 +314,7 @@ func (t *Target) rewrite(req *httputil.ProxyRequest) {
 	routingContext := RoutingContext(req.In)
 	if routingContext != nil {
 		req.Out.URL.Path = strings.TrimPrefix(req.Out.URL.Path, routingContext.MatchedPrefix)
+		req.Out.URL.RawPath = strings.TrimPrefix(req.Out.URL.RawPath, routingContext.MatchedPrefix)
 	}
 
 	// Ensure query params are preserved exactly, including those we could not
